@@ -111,7 +111,7 @@ IStore == /\ phase = "run" /\ AtSilent(m) /\ St.op = "store" /\ Taken("IStore")
           /\ UNCHANGED <<s, loc, regs, spill, used, moves, phase, ok>>
 
 (* loop / ifnz: control only (the branch is taken on the value the machine holds) *)
-ICtl == /\ phase = "run" /\ AtSilent(m) /\ St.op \in {"loop", "ifnz", "stk", "stkrt"} /\ Taken("ICtl")
+ICtl == /\ phase = "run" /\ AtSilent(m) /\ St.op \in {"loop", "ifnz", "switch", "stk", "stkrt"} /\ Taken("ICtl")
         /\ m' = IF St.op = "ifnz"
                 THEN [m EXCEPT !.k = (IF IsZero(Held(St.v)) THEN <<>> ELSE St.body) \o Tail(m.k)]
                 ELSE Silent(s, Run, m)
